@@ -36,10 +36,10 @@ func (p c01) Batches(tier string, seed uint64) []core.Batch {
 	var b []core.Batch
 	b = append(b, core.Batch{Name: "pinned"})
 	b = append(b, spread("exh", tierN(tier, 16, 64), 0)...)
-	b = append(b, spread("rand", 16, tierN(tier, 1500, 30000))...)
-	b = append(b, spread("less", 2, tierN(tier, 40, 400))...)
-	b = append(b, spread("dpkg", 16, tierN(tier, 30, 400))...)
-	b = append(b, spread("perl", 4, tierN(tier, 1500, 40000))...)
+	b = append(b, spread("rand", 16, tierN(tier, 8000, 60000))...)
+	b = append(b, spread("less", 4, tierN(tier, 200, 1000))...)
+	b = append(b, spread("dpkg", 16, tierN(tier, 60, 400))...)
+	b = append(b, spread("perl", 4, tierN(tier, 5000, 40000))...)
 	return b
 }
 
